@@ -41,7 +41,7 @@ bell_shape!(c11_bell_shape_f32, f32, F32);
 macro_rules! bell_band {
     ($name:ident, $t:ty, $fmt:expr, $max_exp:expr) => {
         /// Band soundness of error_is_accurate: for every normalised 64-bit significand, every
-        /// biased exponent the algorithm can reach, every accumulated error bound `errors` <= 64:
+        /// biased exponent the algorithm can reach, EVERY accumulated error bound `errors` (all u32):
         /// if the estimate is accepted, then EVERY significand within (mant - errors, mant + errors)
         /// rounds to the same float as mant - so whatever the true value inside the tracked
         /// band, the definite answer is its correct rounding; estimates whose band touches a
@@ -52,10 +52,8 @@ macro_rules! bell_band {
             kani::assume(fp.mant >> 63 == 1);
             kani::assume(fp.exp >= -63 && fp.exp <= $max_exp);
             let errors: u32 = kani::any();
-            kani::assume(errors <= 64);
             let delta: i64 = kani::any();
-            kani::assume((delta.unsigned_abs() as u32 as u64) < errors as u64 || delta == 0);
-            kani::assume(delta.unsigned_abs() < 64);
+            kani::assume(delta.unsigned_abs() < errors as u64 || delta == 0);
             let m2 = fp.mant as i128 + delta as i128;
             kani::assume(m2 >= (1i128 << 63) && m2 < (1i128 << 64));
             if error_is_accurate::<$t>(errors, &fp) {
@@ -79,6 +77,105 @@ macro_rules! bell_band {
 }
 bell_band!(c11_bell_band_f64, f64, F64, 2100);
 bell_band!(c11_bell_band_f32, f32, F32, 320);
+
+// error_is_accurate replaced by a ghost recorder (always "not accurate"), mul by an arbitrary
+// function with the range fact of a product of two normalised words.
+static mut EA_CALLS: u32 = 0;
+static mut EA_ERRORS: u32 = 0;
+static mut EA_MANT: u64 = 0;
+fn ghost_error_is_accurate<F: Float>(errors: u32, fp: &ExtendedFloat) -> bool {
+    unsafe {
+        EA_CALLS += 1;
+        EA_ERRORS = errors;
+        EA_MANT = fp.mant;
+    }
+    false
+}
+fn ghost_mul(x: &ExtendedFloat, y: &ExtendedFloat) -> ExtendedFloat {
+    let m: u64 = kani::any();
+    kani::assume(m >> 62 != 0);
+    ExtendedFloat { mant: m, exp: x.exp + y.exp + 64 }
+}
+
+macro_rules! bell_truncation {
+    ($name:ident, $t:ty) => {
+        /// Truncation is accounted for (necessary bound, independent of how the code computes
+        /// it): when the significand was truncated (the real digits lie in [w, w+1)), ONE UNIT of
+        /// w is mant / w > 2^(lz(w) - 1) ULPs of the final 64-bit mantissa, so the error bound
+        /// handed to error_is_accurate (1/8-ULP units) must be at least 2^(lz(w) + 2) - or be
+        /// saturated (>= 2^28 - 1, always rejected).  ALL w != 0, all exponents; mul arbitrary.
+        #[kani::proof]
+        #[kani::stub(error_is_accurate, ghost_error_is_accurate)]
+        #[kani::stub(mul, ghost_mul)]
+        fn $name() {
+            let num = Number { exponent: kani::any(), mantissa: kani::any(), many_digits: true };
+            kani::assume(num.mantissa != 0);
+            let fp = bellerophon::<$t>(&num);
+            unsafe {
+                if EA_CALLS == 1 {
+                    let lz = num.mantissa.leading_zeros();
+                    assert!(
+                        EA_ERRORS as u64 >= 1u64 << (lz + 2).min(40) || EA_ERRORS >= 0x0fff_ffff,
+                        "C11 Bellerophon error budget covers one unit of a truncated significand"
+                    );
+                    assert!(fp.exp < 0, "ghost: declined");
+                }
+                kani::cover!(EA_CALLS == 1 && num.mantissa < (1u64 << 60) && num.mantissa > (1u64 << 59), "19-digit significand just below 2^60");
+                kani::cover!(EA_CALLS == 1 && EA_ERRORS >= 0x0fff_ffff, "saturated");
+            }
+        }
+    };
+}
+bell_truncation!(c11_bell_truncation_f64, f64);
+bell_truncation!(c11_bell_truncation_f32, f32);
+
+//@if-fn truncation_error
+/// truncation_error(w) == min(8 * floor((2^64-1) / w), 2^28 - 1) for every w != 0
+/// (division-free statement: r = 8u with u*w <= 2^64-1 < (u+1)*w).
+#[kani::proof]
+fn c11_bell_truncation_error_fn() {
+    let w: u64 = kani::any();
+    kani::assume(w != 0);
+    let r = truncation_error(w);
+    if r < 0x0fff_ffff {
+        let u = (r >> 3) as u128;
+        assert!(r & 7 == 0, "C11 truncation_error in whole ULPs");
+        assert!(u * (w as u128) <= u64::MAX as u128 && (u + 1) * (w as u128) > u64::MAX as u128, "C11 truncation_error == 8 * floor((2^64-1)/w)");
+    } else {
+        assert!(r == 0x0fff_ffff && (w as u128) * ((0x0fff_ffffu128 >> 3) + 1) <= (u64::MAX as u128) + (w as u128), "C11 truncation_error saturates only when the true value is larger");
+    }
+    kani::cover!(r == 0x0fff_ffff);
+    kani::cover!(r == 8);
+}
+
+static mut TE_VAL: u32 = 0;
+fn ghost_truncation_error(_mantissa: u64) -> u32 {
+    unsafe { TE_VAL }
+}
+
+/// The truncation error, once added, is never lost: the bound handed to error_is_accurate
+/// is >= truncation_error(w) (only additions and a left shift follow).
+#[kani::proof]
+#[kani::stub(error_is_accurate, ghost_error_is_accurate)]
+#[kani::stub(mul, ghost_mul)]
+#[kani::stub(truncation_error, ghost_truncation_error)]
+fn c11_bell_truncation_propagates() {
+    let num = Number { exponent: kani::any(), mantissa: kani::any(), many_digits: true };
+    kani::assume(num.mantissa != 0);
+    let t: u32 = kani::any();
+    kani::assume(t <= 0x0fff_ffff);
+    unsafe {
+        TE_VAL = t;
+    }
+    let _ = bellerophon::<f64>(&num);
+    unsafe {
+        if EA_CALLS == 1 {
+            assert!(EA_ERRORS >= t, "C11 truncation error reaches error_is_accurate undiminished");
+        }
+        kani::cover!(EA_CALLS == 1 && t == 0x0fff_ffff);
+    }
+}
+//@endif
 
 /// normalize: shifts out exactly the leading zeros, adjusts the exponent, reports the shift.
 #[kani::proof]
